@@ -152,79 +152,84 @@ var fields = map[string]field{
 		atoi(b, e.End.UnixNano(), 0)
 	},
 	"$time_common": func(b *bytes.Buffer, e *Event) {
-		atoi(b, int64(e.End.Day()), 2)
+		end := e.End.UTC() // the value is labelled as UTC
+		atoi(b, int64(end.Day()), 2)
 		b.WriteRune('/')
-		b.WriteString(shortMonthNames[e.End.Month()])
+		b.WriteString(shortMonthNames[end.Month()])
 		b.WriteRune('/')
-		atoi(b, int64(e.End.Year()), 4)
+		atoi(b, int64(end.Year()), 4)
 		b.WriteRune(':')
-		atoi(b, int64(e.End.Hour()), 2)
+		atoi(b, int64(end.Hour()), 2)
 		b.WriteRune(':')
-		atoi(b, int64(e.End.Minute()), 2)
+		atoi(b, int64(end.Minute()), 2)
 		b.WriteRune(':')
-		atoi(b, int64(e.End.Second()), 2)
+		atoi(b, int64(end.Second()), 2)
 		b.WriteString(" +0000") // TODO(fs): local time
 	},
 	"$time_rfc3339": func(b *bytes.Buffer, e *Event) {
-		atoi(b, int64(e.End.Year()), 4)
+		end := e.End.UTC() // the value is labelled as UTC
+		atoi(b, int64(end.Year()), 4)
 		b.WriteRune('-')
-		atoi(b, int64(e.End.Month()), 2)
+		atoi(b, int64(end.Month()), 2)
 		b.WriteRune('-')
-		atoi(b, int64(e.End.Day()), 2)
+		atoi(b, int64(end.Day()), 2)
 		b.WriteRune('T')
-		atoi(b, int64(e.End.Hour()), 2)
+		atoi(b, int64(end.Hour()), 2)
 		b.WriteRune(':')
-		atoi(b, int64(e.End.Minute()), 2)
+		atoi(b, int64(end.Minute()), 2)
 		b.WriteRune(':')
-		atoi(b, int64(e.End.Second()), 2)
+		atoi(b, int64(end.Second()), 2)
 		b.WriteRune('Z')
 	},
 	"$time_rfc3339_ms": func(b *bytes.Buffer, e *Event) {
-		atoi(b, int64(e.End.Year()), 4)
+		end := e.End.UTC() // the value is labelled as UTC
+		atoi(b, int64(end.Year()), 4)
 		b.WriteRune('-')
-		atoi(b, int64(e.End.Month()), 2)
+		atoi(b, int64(end.Month()), 2)
 		b.WriteRune('-')
-		atoi(b, int64(e.End.Day()), 2)
+		atoi(b, int64(end.Day()), 2)
 		b.WriteRune('T')
-		atoi(b, int64(e.End.Hour()), 2)
+		atoi(b, int64(end.Hour()), 2)
 		b.WriteRune(':')
-		atoi(b, int64(e.End.Minute()), 2)
+		atoi(b, int64(end.Minute()), 2)
 		b.WriteRune(':')
-		atoi(b, int64(e.End.Second()), 2)
+		atoi(b, int64(end.Second()), 2)
 		b.WriteRune('.')
-		atoi(b, int64(e.End.Nanosecond())/int64(time.Millisecond), 3)
+		atoi(b, int64(end.Nanosecond())/int64(time.Millisecond), 3)
 		b.WriteRune('Z')
 	},
 	"$time_rfc3339_us": func(b *bytes.Buffer, e *Event) {
-		atoi(b, int64(e.End.Year()), 4)
+		end := e.End.UTC() // the value is labelled as UTC
+		atoi(b, int64(end.Year()), 4)
 		b.WriteRune('-')
-		atoi(b, int64(e.End.Month()), 2)
+		atoi(b, int64(end.Month()), 2)
 		b.WriteRune('-')
-		atoi(b, int64(e.End.Day()), 2)
+		atoi(b, int64(end.Day()), 2)
 		b.WriteRune('T')
-		atoi(b, int64(e.End.Hour()), 2)
+		atoi(b, int64(end.Hour()), 2)
 		b.WriteRune(':')
-		atoi(b, int64(e.End.Minute()), 2)
+		atoi(b, int64(end.Minute()), 2)
 		b.WriteRune(':')
-		atoi(b, int64(e.End.Second()), 2)
+		atoi(b, int64(end.Second()), 2)
 		b.WriteRune('.')
-		atoi(b, int64(e.End.Nanosecond())/int64(time.Microsecond), 6)
+		atoi(b, int64(end.Nanosecond())/int64(time.Microsecond), 6)
 		b.WriteRune('Z')
 	},
 	"$time_rfc3339_ns": func(b *bytes.Buffer, e *Event) {
-		atoi(b, int64(e.End.Year()), 4)
+		end := e.End.UTC() // the value is labelled as UTC
+		atoi(b, int64(end.Year()), 4)
 		b.WriteRune('-')
-		atoi(b, int64(e.End.Month()), 2)
+		atoi(b, int64(end.Month()), 2)
 		b.WriteRune('-')
-		atoi(b, int64(e.End.Day()), 2)
+		atoi(b, int64(end.Day()), 2)
 		b.WriteRune('T')
-		atoi(b, int64(e.End.Hour()), 2)
+		atoi(b, int64(end.Hour()), 2)
 		b.WriteRune(':')
-		atoi(b, int64(e.End.Minute()), 2)
+		atoi(b, int64(end.Minute()), 2)
 		b.WriteRune(':')
-		atoi(b, int64(e.End.Second()), 2)
+		atoi(b, int64(end.Second()), 2)
 		b.WriteRune('.')
-		atoi(b, int64(e.End.Nanosecond()), 9)
+		atoi(b, int64(end.Nanosecond()), 9)
 		b.WriteRune('Z')
 	},
 	"$upstream_addr": func(b *bytes.Buffer, e *Event) {
